@@ -2,6 +2,13 @@
 
 Protocol (ids are small naturals; op n is "op<n>", resource n is "r<n>" in the implementation):
   cfg <maxOp|none> <starv|none> <prog|none> <priority|oldest|other>     new CoordinationSystem (first line of a case)
+  use k                several systems alive: park the current one, continue with slot k (fresh when empty); they share
+                       only the virtual clock
+  setwd a b c strat    re-assign the live watchdog's public settings (max_operation_time, starvation_timeout,
+                       progress_timeout, deadlock_strategy)          setsys a b c   re-assign the CoordinationSystem's
+                       own timeout fields (read once in __post_init__: no effect)
+  nest o p r,.. i q,.. <yes|no>   SEARCH-ONLY (last line of a case; the model answers "search-only"): execute_operation(o)
+                       whose work_fn calls execute_operation(i) - also with i = o - requesting q,..
   res r pre            register_resource            start o p        start_operation
   acq o r              controller.acquire_resource  rel o r          controller.release_resource
   complete o / abort o controller.complete_operation / abort_operation
@@ -22,6 +29,8 @@ str(e) == ""), Vm ValueError("boom"), Km KeyError("k"), Cm CustomFault("boom"), 
 raise); plain `raise` = RuntimeError with a message.  Checkpoints: x RuntimeError("checkpoint"), y ValueError(), z CustomFault().  BaseException subclasses
 (KeyboardInterrupt, SystemExit) are not injected: every handler in system.py / controller.py / cell.py is
 `except Exception`, the code does not claim to survive them.
+`ids <r|a|ra>` right after cfg is a harness directive (both sides answer "bad-op"): resource ids 1..3 / the agent id are
+str subclasses whose repr(), str() and format() raise (hash and equality are str's).
 Calls naming an operation that is not in controller.active_operations are not made ("noop"); registering an id
 twice is not made ("dup").  Every observation is "<result> | <state dump>".
 """
@@ -98,18 +107,39 @@ RESULT_KINDS = ["", "", "", ".N", ".N", ".Z", ".E", ".L", ".F", ".O", ".X", ".X"
 KINDS = ["", "", ".V0", ".A0", ".R0", ".K0", ".C0", ".Vm", ".Km", ".Cm", ".SX", ".SX"]
 
 
+class WeirdStr(str):
+    """an id that is a perfectly good dict key (str hash / equality) but cannot be rendered: repr(), str() and
+    format() raise - so any f-string, %-format or log line that mentions it raises"""
+
+    def __repr__(self):
+        raise RuntimeError("bad __repr__")
+
+    def __str__(self):
+        raise RuntimeError("bad __str__")
+
+    def __format__(self, spec):
+        raise RuntimeError("bad __format__")
+
+
+WEIRD = set()        # id families that are WeirdStr in the current case: "r" resource ids 1..3, "a" the agent id
+
+
 def opn(n):
     return f"op{n}"
 
 
 def rn(n):
-    return f"r{n}"
+    return WeirdStr(f"r{n}") if "r" in WEIRD and n <= 3 else f"r{n}"
+
+
+def agent():
+    return WeirdStr("agent") if "a" in WEIRD else "agent"
 
 
 def num(x):
     if x is None:
         return "-"
-    s = str(x)
+    s = x[:] if isinstance(x, str) else str(x)
     d = s.lstrip("opr")
     return d if d.isdigit() else "?" + s
 
@@ -120,11 +150,14 @@ class Impl:
     def __init__(self, owner):
         self.o = owner
         self.cs = None
+        self.slot = 0
+        self.parked = {}
 
     # ------------------------------------------------------------------------------------------------------
-    def new_system(self, t):
+    def new_system(self, t, keep_clock=False):
         o = self.o
-        o.clock.us = 0
+        if not keep_clock:
+            o.clock.us = 0
 
         def td(x):
             return None if x == "none" else _dt.timedelta(microseconds=int(x))
@@ -246,8 +279,11 @@ class Impl:
             """what a callback does to the system from inside before it answers"""
             self.o.clock.advance_us(us)
             if a.startswith("k"):
-                cs.kill_operation(opn(int(a[1:])))
+                ev = cs.kill_operation(opn(int(a[1:])))
+                if ev is not None:
+                    work_events.append((num(ev.operation_id), ev.reason.value))
             elif a == "s":
+                work_events.extend((num(o_), "shutdown") for o_ in list(ctrl.active_operations))
                 cs.shutdown()
             elif a == "w":
                 work_events.extend((num(e.operation_id), e.reason.value) for e in cs.watchdog.execute(ctrl))
@@ -312,7 +348,7 @@ class Impl:
                     def boom(*a, **k):
                         raise make_exc(post, "pool")
                     cell.quality_pool.allocate = boom
-                cres = cell.execute("agent", op, work, resources=req,
+                cres = cell.execute(agent(), op, work, resources=req,
                                     validate_fn=None if val == "absent" else validate, priority=prio)
                 res = captured[0] if captured else None
                 out = (f"cell:{show_bool(cres.success)} {cres.blocked_by or 'none'} out:{show_bool(cres.output is not None)} "
@@ -325,7 +361,7 @@ class Impl:
                 info["has_output"] = cres.output is not None
                 info["tracked"] = "agent" in cell.agent_operations
             else:
-                res = cs.execute_operation(op, "agent", work, resources=req,
+                res = cs.execute_operation(op, agent(), work, resources=req,
                                            validate_fn=None if val == "absent" else validate, priority=prio)
                 out = show_coord(res)
                 info["success"] = bool(res.success)
@@ -343,6 +379,29 @@ class Impl:
         return out
 
     # ------------------------------------------------------------------------------------------------------
+    def do_nest(self, t, info):
+        """search-only: work_fn re-enters execute_operation (default checkpoints, nothing scripted)"""
+        cs = self.cs
+        ctrl = cs.controller
+        outer, inner = opn(int(t[1])), opn(int(t[4]))
+        req = [] if t[3] == "-" else [rn(int(x)) for x in t[3].split(",")]
+        ireq = [] if t[5] == "-" else [rn(int(x)) for x in t[5].split(",")]
+        seen = {}
+
+        def work():
+            r = cs.execute_operation(inner, agent(), lambda: 1, resources=ireq, validate_fn=lambda x: t[6] == "yes",
+                                     priority=int(t[2]))
+            seen["inner"] = bool(r.success)
+            return 1
+        try:
+            res = cs.execute_operation(outer, agent(), work, resources=req, priority=int(t[2]))
+            info["success"] = bool(res.success)
+        except Exception as e:  # noqa
+            info["raised"] = type(e).__name__
+        info["nest"] = (num(outer), num(inner))
+        return "search-only"
+
+    # ------------------------------------------------------------------------------------------------------
     def step(self, line):
         """-> (result string, info dict)"""
         t = line.split()
@@ -350,21 +409,50 @@ class Impl:
         if not t:
             return None, info
         if t[0] == "cfg" and len(t) == 5:
+            WEIRD.clear()
             self.new_system(t)
             return "ok", info
+        if t[0] == "ids" and len(t) == 2 and set(t[1]) <= set("ra"):
+            # harness directive, not a protocol operation (the model answers "bad-op" and so does this): from here on
+            # resource ids 1..3 ("r") / the agent id ("a") are WeirdStr.  Goes right after cfg, before the ids are used.
+            WEIRD.clear()
+            WEIRD.update(t[1])
+            return None, info
         if self.cs is None:
             self.new_system(["cfg", "none", "none", "none", "priority"])
+        if t[0] == "use" and len(t) == 2:
+            k = int(t[1])
+            if k != self.slot:
+                self.parked[self.slot] = (self.cs, self.cell, self.defaults, self.default_cps)
+                self.slot = k
+                if k in self.parked:
+                    self.cs, self.cell, self.defaults, self.default_cps = self.parked.pop(k)
+                else:
+                    self.new_system(["cfg", "none", "none", "none", "priority"], keep_clock=True)
+            return "ok", info
         cs = self.cs
         ctrl = cs.controller
         k = t[0]
+
+        def td(x):
+            return None if x == "none" else _dt.timedelta(microseconds=int(x))
         try:
+            if k == "setwd" and len(t) == 5:
+                cs.watchdog.max_operation_time, cs.watchdog.starvation_timeout = td(t[1]), td(t[2])
+                cs.watchdog.progress_timeout, cs.watchdog.deadlock_strategy = td(t[3]), t[4]
+                return "ok", info
+            if k == "setsys" and len(t) == 4:
+                cs.max_operation_time, cs.starvation_timeout, cs.progress_timeout = td(t[1]), td(t[2]), td(t[3])
+                return "ok", info
+            if k == "nest" and len(t) == 7:
+                return self.do_nest(t, info), info
             if k == "res" and len(t) == 3:
                 if rn(int(t[1])) in ctrl.resources:
                     return "dup", info
                 cs.register_resource(rn(int(t[1])), allow_preemption=t[2] == "1")
                 return "ok", info
             if k == "start" and len(t) == 3:
-                cs.start_operation(opn(int(t[1])), "agent", priority=int(t[2]))
+                cs.start_operation(opn(int(t[1])), agent(), priority=int(t[2]))
                 return "ok", info
             if k in ("acq", "rel") and len(t) == 3:
                 ctx = ctrl.active_operations.get(opn(int(t[1])))
@@ -386,7 +474,9 @@ class Impl:
                 elif k == "abort":
                     ctrl.abort_operation(ctx, reason="test")
                 elif k == "kill":
-                    cs.kill_operation(opn(int(t[1])))
+                    ev = cs.kill_operation(opn(int(t[1])))
+                    if ev is not None:
+                        info["events"] = [(num(ev.operation_id), ev.reason.value)]
                 else:
                     ctx.metadata["watchdog_exempt"] = t[2] == "1"
                 return "ok", info
@@ -397,6 +487,7 @@ class Impl:
                 r = ctrl.advance(ctx)
                 return show_bool(r.value == "passed"), info
             if k == "shutdown":
+                info["events"] = [(num(o_), "shutdown") for o_ in list(ctrl.active_operations)]
                 cs.shutdown()
                 return "ok", info
             if k == "adv" and len(t) == 2:
@@ -450,6 +541,7 @@ class CoordMixin:
     def run_impl(self, case):
         def body():
             impl = Impl(self)
+            WEIRD.clear()
             obs, extra = [], []
             for line in case["lines"]:
                 res, info = impl.step(line)
@@ -582,7 +674,8 @@ def gen_ended_in_callback(rng):
     L = rng.choice([3, 5])
     cfg = rng.choice(["cfg none none none priority", "cfg none none none priority", f"cfg {L} none none priority",
                       f"cfg {L} {L} {L} oldest", f"cfg none {L} {L} priority"])
-    lines = [cfg] + [f"res {r} {rng.choice('001')}" for r in range(1, nres + 1)]
+    lines = [cfg] + ([f"ids {rng.choice(['r', 'a', 'ra'])}"] if rng.random() < 0.15 else []) \
+        + [f"res {r} {rng.choice('001')}" for r in range(1, nres + 1)]
     others = []
     for o in rng.sample([2, 3], rng.choice([0, 0, 1, 1, 2])):
         others.append(o)
@@ -614,3 +707,58 @@ def gen_ended_in_callback(rng):
     if rng.random() < 0.3:
         lines.append(rng.choice(["watchdog", "deadlock", "maint", "shutdown"]))
     return {"lines": lines, "note": "ended from inside one of its own callbacks"}
+
+
+def gen_two_systems(rng):
+    """Several CoordinationSystems alive at the same time, the same resource and operation ids in each, operations
+    interleaved: nothing one system does may show in the other (state dump of the current system after every line)."""
+    nres = rng.choice([1, 2, 2])
+    lines = [gen_cfg(rng)]
+    slots = [0, rng.choice([1, 2])]
+    for k in slots:
+        lines.append(f"use {k}")
+        if k != 0 and rng.random() < 0.5:
+            lines.append(f"setwd {rng.choice(['none', '5', '10'])} none none {rng.choice(['priority', 'oldest'])}")
+        for r in range(1, nres + 1):
+            lines.append(f"res {r} {rng.choice('01')}")
+    for _ in range(rng.choice([4, 6, 8, 10])):
+        c = rng.random()
+        o = rng.choice([1, 2, 3])
+        if c < 0.25:
+            lines.append(f"use {rng.choice(slots)}")
+        elif c < 0.40:
+            lines.append(f"start {o} {rng.randint(0, 4)}")
+        elif c < 0.60:
+            lines.append(f"acq {o} {rng.randint(1, nres)}")
+        elif c < 0.66:
+            lines.append(f"rel {o} {rng.randint(1, nres)}")
+        elif c < 0.72:
+            lines.append(rng.choice([f"complete {o}", f"abort {o}", f"kill {o}"]))
+        elif c < 0.80:
+            lines.append(rng.choice(["watchdog", "deadlock", "maint", "shutdown"]))
+        elif c < 0.85:
+            lines.append(f"adv {rng.choice([1, 5, 6, 11])}")
+        elif c < 0.90:
+            lines.append(rng.choice([f"setwd {rng.choice(['none', '0', '5', '10'])} {rng.choice(['none', '5'])} "
+                                     f"{rng.choice(['none', '5'])} {rng.choice(['priority', 'oldest', 'other'])}",
+                                     f"setsys {rng.choice(['none', '0', '5'])} none {rng.choice(['none', '5'])}"]))
+        else:
+            lines.append(gen_exec(rng, rng.choice([1, 4]), nres, [2, 3]))
+    lines += [f"use {slots[0]}", "deadlock", f"use {slots[1]}", "deadlock"]
+    return {"lines": lines, "note": "several systems alive"}
+
+
+def gen_nest(rng):
+    """search-only: work_fn re-enters execute_operation - with another id, or with the SAME id (an id reuse while
+    active, outside the property's quantifier) - and everything both of them held must be free afterwards."""
+    nres = rng.choice([2, 3])
+    lines = ["cfg none none none priority"] + [f"res {r} {rng.choice('001')}" for r in range(1, nres + 1)]
+    if rng.random() < 0.4:
+        lines += [f"start 2 {rng.randint(0, 5)}", f"acq 2 {rng.randint(1, nres)}"]
+    req = rng.sample(range(1, nres + 1), rng.randint(1, nres))
+    inner = rng.choice([1, 1, 5])
+    ireq = rng.sample(range(1, nres + 1), rng.randint(1, nres)) if inner != 1 or rng.random() < 0.3 \
+        else rng.sample(req, rng.randint(1, len(req)))
+    lines.append(f"nest 1 {rng.randint(0, 5)} {','.join(map(str, req))} {inner} {','.join(map(str, ireq))} "
+                 f"{rng.choice(['yes', 'yes', 'no'])}")
+    return {"lines": lines, "note": "search-only: nested execute_operation"}
